@@ -574,6 +574,12 @@ theorem rinv_step (cfg : Cfg) {st : St} (e : Ev) (hok : okAt st e) (h : RInv st)
       · exact h
       · apply rinv_same h <;> (unfold doApplyGetFail ignoreMsg ackTo; (repeat' split) <;> rfl)
     · exact h
+  case applyNoRows =>
+    split
+    · split
+      · exact h
+      · apply rinv_same h <;> (unfold doApplyNoRows; (repeat' split) <;> rfl)
+    · exact h
   case appendBad =>
     split
     · split
